@@ -26,12 +26,18 @@ HEADER = ("From Coq Require Import ZArith List Bool.\nFrom SK Require Import Lib
           "Import ListNotations.\nOpen Scope Z_scope.")
 
 
-def run_impl(tabs, n, m, pen):
+def run_impl(tabs, n, m, pen, half=False):
+    """half=True: the user cost returns an INTEGER (int64) array holding tabs / 2 and the penalty is pen / 2 (a half-integer);
+    the reported scores are doubled again, so that the case is compared with the same integer model instance"""
     from skchange.change_detectors import PELT
     X = pd.DataFrame(np.zeros((n, len(tabs))))
-    d = PELT(cost=ts.TableCost(tabs), min_segment_length=m).fit(X)
-    d.penalty_ = float(pen)
-    scores = d.transform_scores(X).to_numpy()
+    if half:
+        cost = ts.TableCost([[[v // 2 for v in r] for r in t] for t in tabs], int_dtype=True)
+    else:
+        cost = ts.TableCost(tabs)
+    d = PELT(cost=cost, min_segment_length=m).fit(pd.DataFrame(np.zeros((len(X) + (len(X) * 7 + 3) % 5, X.shape[1]))))
+    d.penalty_ = float(pen) / 2 if half else float(pen)
+    scores = d.transform_scores(X).to_numpy() * (2 if half else 1)
     cpts = d.predict(X)["ilocs"].to_list()
     if not np.all(scores == np.round(scores)):
         raise RuntimeError("non-integer scores from integer tables")
@@ -97,6 +103,13 @@ def run(ctx):
     for i in range(N):
         stream = "ABAC"[i % 4]
         cases.append(gen_case(ctx.rng, stream, big=(i % 3 == 0)))
+        if i % 6 == 5 and stream in "AB":
+            # integer-dtype user cost with a half-integer penalty: the doubled instance is what the model sees
+            c = cases[-1]
+            c["tabs"] = [[[2 * v for v in r] for r in t] for t in c["tabs"]]
+            c["pen"] = 2 * c["pen"] + 1
+            c["half"] = True
+            c["stream"] = c["stream"] + "-int64"
     if not ctx.quick() and ctx.scale == 1:
         # exhaustive small scope: EVERY loss table over {0,1,2} with two parameter values on n = 4 samples (3^8 tables), m in {1,2}, pen in {0,1,2}
         import itertools
@@ -110,7 +123,7 @@ def run(ctx):
     terms, metas = [], []
     for c in cases:
         try:
-            cpts, scores = run_impl(c["tabs"], c["n"], c["m"], c["pen"])
+            cpts, scores = run_impl(c["tabs"], c["n"], c["m"], c["pen"], half=c.get("half", False))
         except Exception as ex:  # the real PELT must run on every valid configuration
             ctx.violation(f"PELT raised {type(ex).__name__}: {ex} on a valid table-cost input", c,
                           {"what": "exception", "class": type(ex).__name__})
@@ -152,3 +165,20 @@ def run(ctx):
     from skchange.costs import GaussianVarCost, L2Cost
     reuse_stream(ctx, "PELT(L2Cost)", lambda: PELT(cost=L2Cost(), min_segment_length=2), ctx.n(6, 40))
     reuse_stream(ctx, "PELT(GaussianVarCost)", lambda: PELT(cost=GaussianVarCost(), min_segment_length=3, penalty_scale=0.5), ctx.n(4, 30))
+    # ---- homogeneity: the squared-error cost of c*X is c^2 times that of X, so PELT's optimal penalised cost on c*X with penalty c^2*pen
+    # ---- must be c^2 times the one on X, also for data of tiny or huge magnitude (compared on the optimal VALUE, which is tie-proof)
+    for it in range(ctx.n(10, 80)):
+        n = ctx.rng.randint(8, 30)
+        m = ctx.rng.choice([1, 2, 3])
+        x = np.asarray([[float(ctx.rng.randint(-5, 5))] for _ in range(n)])
+        x[ctx.rng.randint(2, n - 2):] += ctx.rng.choice([4.0, -6.0])
+        pen = ctx.rng.choice([0.0, 0.37, 2.9, 11.3])
+        vals = []
+        for c_ in (1.0, 1e-6, 1e5):
+            d = PELT(cost=L2Cost(), min_segment_length=m).fit(pd.DataFrame(x * c_))
+            d.penalty_ = pen * c_ * c_
+            vals.append(float(d.transform_scores(pd.DataFrame(x * c_)).to_numpy()[-1]) / (c_ * c_))
+        ctx.case({"homog": it, "x": x.tolist(), "pen": pen, "m": m}, nontrivial=True)
+        if max(abs(v - vals[0]) for v in vals) > 1e-6 * (abs(vals[0]) + 1):
+            ctx.violation(f"PELT(L2Cost): the optimal penalised cost of c*X with penalty c^2*pen is not c^2 times that of X: c = 1, 1e-6, 1e5 give {vals} "
+                          f"(after dividing by c^2), n={n} m={m} pen={pen}", {"x": x.ravel().tolist(), "pen": pen, "m": m, "values": vals}, {"what": "homogeneity"})
